@@ -3,7 +3,9 @@ package c12
 import (
 	"encoding/json"
 	"fmt"
+	"math"
 	"regexp"
+	"sort"
 	"strings"
 	"testing"
 	"time"
@@ -365,6 +367,15 @@ func check(c valCase) (fails []vf.Failure, accepted, rejected int) {
 		return []vf.Failure{*f}, 0, 0
 	}
 	if err != nil {
+		refused := boundBeyondType(c.Field)
+		for _, sb := range c.Siblings {
+			refused = refused || boundBeyondType(sb.Field)
+		}
+		if refused {
+			// a bound the field's type cannot hold: refusing the declaration is a
+			// sound answer (compiling it to a different bound is not)
+			return nil, 0, 0
+		}
 		return []vf.Failure{vf.Failf("compile|error", "declaration does not compile (C07's verdict): %v\n%s", err, src.Files["rule/check/v1/main.j5s"])}, 0, 0
 	}
 	md := files[0].Messages().ByName("Holder")
@@ -460,6 +471,32 @@ func reasonOf(err error) string {
 		return "validator:" + ve.Violations[0].Proto.GetConstraintId()
 	}
 	return ""
+}
+
+// boundBeyondType: an integer bound outside the range of the field's own type.
+func boundBeyondType(f *j5sgen.Field) bool {
+	t := f.Type
+	if t.Items != nil {
+		t = t.Items
+	}
+	if t.Kind != "integer" || t.Rules == nil {
+		return false
+	}
+	lo, hi := int64(math.MinInt64), int64(math.MaxInt64)
+	switch t.Format {
+	case "INT32":
+		lo, hi = math.MinInt32, math.MaxInt32
+	case "UINT32":
+		lo, hi = 0, math.MaxUint32
+	case "UINT64":
+		lo = 0
+	}
+	for _, b := range []*int64{t.Rules.Minimum, t.Rules.Maximum} {
+		if b != nil && (*b < lo || *b > hi) {
+			return true
+		}
+	}
+	return false
 }
 
 func violatedField(err error) string {
@@ -624,6 +661,14 @@ func drawLeaf(t *rapid.T, forArray bool) (*j5sgen.Type, []cand) {
 		r := &j5sgen.Rules{}
 		lo := int64(rapid.IntRange(0, 20).Draw(t, "lo"))
 		hi := lo + int64(rapid.IntRange(0, 20).Draw(t, "span"))
+		if rapid.IntRange(0, 5).Draw(t, "widebound") == 0 {
+			// bounds at and beyond the edge of the 32-bit types: beyond it the
+			// declaration may be refused, but not compiled to a bound that wrapped
+			hi = rapid.SampledFrom([]int64{1<<31 - 1, 1 << 31, 1<<32 - 1, 1 << 32, 1<<32 + 5, 1 << 40}).Draw(t, "widehi")
+			if rapid.Bool().Draw(t, "widelo") {
+				lo = hi
+			}
+		}
 		if rapid.Bool().Draw(t, "hasmin") {
 			r.Minimum = &lo
 			if rapid.Bool().Draw(t, "exminset") {
@@ -647,7 +692,22 @@ func drawLeaf(t *rapid.T, forArray bool) (*j5sgen.Type, []cand) {
 			}
 		}
 		unsigned := strings.HasPrefix(ty.Format, "U")
+		top := int64(math.MaxInt64)
+		switch ty.Format {
+		case "INT32":
+			top = math.MaxInt32
+		case "UINT32":
+			top = math.MaxUint32
+		}
+		vals[top], vals[top-1] = true, true
+		var sorted []int64
 		for v := range vals {
+			if v <= top {
+				sorted = append(sorted, v)
+			}
+		}
+		sort.Slice(sorted, func(i, j int) bool { return sorted[i] < sorted[j] })
+		for _, v := range sorted {
 			if unsigned {
 				cs = append(cs, cand{U: up(uint64(v))})
 			} else {
